@@ -478,7 +478,11 @@ func vRunFree(sc *vScenario) {
 	nodeIDCounter = 100
 	x := &vSchedExec{free: true, fs: fs}
 	func() {
-		defer func() { recover() }()
+		defer func() {
+			if r := recover(); r != nil {
+				fmt.Fprintf(os.Stderr, "panic: (recovered in free-running body) %v\n", r)
+			}
+		}()
 		sc.Body(x)
 	}()
 	vos.FS = nil
@@ -604,6 +608,9 @@ func vRaceShard(tier string) vShard {
 				c.NewState("race|" + scenario)
 				c.Transitions++
 				c.Traces++
+			case strings.HasPrefix(line, "fatal error:") || strings.HasPrefix(line, "panic:"):
+				flush()
+				c.Violation("free-running-crash", strings.TrimSpace(line), "racepass "+scenario, []string{scenario}, line)
 			case strings.HasPrefix(line, "WARNING: DATA RACE"):
 				flush()
 				inRace = true
